@@ -237,6 +237,11 @@ namespace vh
             v.rt->fileio().add_mapping(dir.string(), "/");
             op_scratch = dir.string();
         }
+        // a small config, so that vehicles and units can be created (the class name check stays on)
+        v.rt->parser_config().parse(v.rt->confighost(),
+            "class CfgVehicles { class B_Soldier_F { transportSoldier = 0; displayName = \"Rifleman\"; }; class B_Truck_01 { transportSoldier = 8; }; class Empty {}; };",
+            sqf::runtime::fileio::pathinfo(std::string("op-config.cpp"), std::string()));
+        v.logger->entries.clear();
         if (!setup.empty())
         {
             auto s0 = v.rt->parser_sqf().parse(*v.rt, setup, pi);
@@ -253,9 +258,15 @@ namespace vh
         auto res = v.rt->execute(sqf::runtime::runtime::action::start);
         std::string type = "-";
         auto ns = v.rt->default_value_scope();
-        if (ns->contains("gr")) { type = std::string(ns->at("gr").type().to_string()); }
+        std::string shown;
+        if (ns->contains("gr"))
+        {
+            type = std::string(ns->at("gr").type().to_string());
+            // the value itself, when it is small (for the replay; values are not compared)
+            if (!ns->at("gr").is<sqf::runtime::t_array>() || ns->at("gr").data<sqf::types::d_array>()->size() <= 16) { shown = render_value(ns->at("gr")).substr(0, 200); }
+        }
         struct rusage r1; getrusage(RUSAGE_SELF, &r1);
         long dmem = (r1.ru_maxrss - r0.ru_maxrss) / 1024;
-        return std::string("res=") + result_name(res) + " err=" + v.logger->codes((int)loglevel::error) + " type=" + type + " dmem=" + std::to_string(dmem);
+        return std::string("res=") + result_name(res) + " err=" + v.logger->codes((int)loglevel::error) + " type=" + type + " dmem=" + std::to_string(dmem) + " val=" + hex_of(shown);
     }
 }
